@@ -68,8 +68,25 @@ def specPublicPath (p : Bytes) : Bool :=
   p == pControlLogin || isLoginPage p || isStaticAsset p ||
   p == pDohMobile || p == pDotMobile || isDoH p
 
-/-- "carrying a valid unexpired session cookie or correct basic credentials". -/
-def specAuthenticated (r : Req) : Bool := r.cookie == .valid || r.basic == .right
+/-- A router token is fresh when its date is at most `glTokenTimeoutSeconds`
+in the past (plain arithmetic: no wrap-around makes an old token fresh). -/
+def tokenFresh (now : Nat) : GLStat → Bool
+  | .date d => decide (now ≤ d + glTimeout)
+  | _ => false
+
+/-- In gl-inet mode (`--glinet`) the router's login service is a further issuer
+of credentials: it writes a token file named after the value it puts into the
+`Admin-Token` cookie.  `issued` is what that service issued under EXACTLY the
+name the cookie carries (`.missing`: nothing) — the cookie value is an opaque
+name, never a path: `x/../other`, an empty value, a percent-encoded or
+over-long value name no token unless a token of literally that name was issued. -/
+def specGLAuthenticated (r : Req) (issued : GLStat) : Bool :=
+  r.glMode && r.glCookie.isSome && tokenFresh r.now issued
+
+/-- "carrying a valid unexpired session cookie or correct basic credentials";
+in gl-inet mode also a fresh router token of exactly the cookie's name. -/
+def specAuthenticated (r : Req) (issued : GLStat) : Bool :=
+  r.cookie == .valid || r.basic == .right || specGLAuthenticated r issued
 
 /-- "a JSON content type" (or nothing to type: a declared empty body,
 `ContentLength = 0`, and no content type; an unknown length is not "empty"). -/
@@ -87,12 +104,15 @@ def allowedDenial : Obs → Bool
   | .resp .forbiddenAuth => true
   | .resp .forbiddenPre => true
   | .resp (.redirect .login) => true
+  | .resp (.redirect .glRouter) => true   -- gl-inet mode: the router's login page
   | _ => false
 
-/-- The request is one the property protects: an administrator account exists,
-the path is not one of the public families, no valid credentials. -/
-def protectedReq (req : Req) : Bool :=
-  req.usersExist && !req.firstRun && !specPublicPath req.path && !specAuthenticated req
+/-- The request is one the property protects: an administrator account exists
+(a configured user, or in gl-inet mode the router's account), the path is not
+one of the public families, no valid credentials. -/
+def protectedReq (req : Req) (issued : GLStat) : Bool :=
+  (req.usersExist || req.glMode) && !req.firstRun && !specPublicPath req.path &&
+  !specAuthenticated req issued
 
 /-- The handler of a state-changing route ran although the method is not the
 declared one or the content type is not JSON. -/
@@ -104,17 +124,23 @@ def badStateChange (req : Req) (declared : Option Bytes) : Bool :=
 /-- The spec monitor: `none` = the outcome is allowed; `some why` = the
 property fails on this request, `why` a short stable reason class.
 `declared` is the method declared for the route that served the request
-(`none` when the mux answered itself or the route is unknown). -/
-def specCheck (req : Req) (declared : Option Bytes) (o : Obs) : Option String :=
-  if protectedReq req && !allowedDenial o then
-    some (if o == .resp .ran then "C11.unauthenticated-handler-ran"
+(`none` when the mux answered itself or the route is unknown); `issued` is the
+router token issued under exactly the name in the `Admin-Token` cookie. -/
+def specCheck (req : Req) (declared : Option Bytes) (o : Obs) (issued : GLStat := .missing) :
+    Option String :=
+  if protectedReq req issued && !allowedDenial o then
+    some (if o == .resp .ran then
+            -- the code's token gate opened on a file that is not the token issued
+            -- under the cookie's name
+            (if glProcessCookie req then "C11.gl-token-not-issued-under-that-name"
+             else "C11.unauthenticated-handler-ran")
           else "C11.unauthenticated-not-403-or-login")
   else if o == .resp .ran && badStateChange req declared then
     some "C11.state-change-wrong-method-or-ctype"
   else none
 
-def specOK (req : Req) (declared : Option Bytes) (o : Obs) : Bool :=
-  (specCheck req declared o).isNone
+def specOK (req : Req) (declared : Option Bytes) (o : Obs) (issued : GLStat := .missing) : Bool :=
+  (specCheck req declared o issued).isNone
 
 /-! ## The route-level reading used by the per-program theorem -/
 
